@@ -87,7 +87,7 @@ def main():
                 row = []
                 for t in types:
                     if t == "i":
-                        row.append(rng.randint(-3, 6))
+                        row.append(rng.choice([rng.randint(-3, 6), rng.randint(-3, 6), 10, 12, 1, 2, 25, -12]))
                     elif t == "d":
                         row.append(rng.choice([0.5, 1.5, -2.25, 3.0, 1e10, 0.0, 1e+20, 12345678.5]))
                     else:
@@ -141,6 +141,13 @@ def main():
                             clauses.append((cols[j], rng.choice(list(PYOP)), "const", rng.choice([0.5, 1.5, 0.0, 2.0, 1e+20, 12345678.5])))
                         else:
                             clauses.append((cols[j], rng.choice(list(PYOP)), "const", rng.randint(-2, 5)))
+                # two clauses on one column with the same operator whose texts are prefix-related (q.c<12, then q.c<1)
+                icols = [j for j in range(ncols) if types[j] == "i"]
+                if icols and rng.random() < 0.25:
+                    j = rng.choice(icols)
+                    o_ = rng.choice(list(PYOP))
+                    big_, small_ = rng.choice([(12, 1), (10, 1), (-12, -1), (25, 2)])
+                    clauses = clauses[:1] + [(cols[j], o_, "const", big_), (cols[j], o_, "const", small_)]
                 want = reference(cols, types, rows, want_cols, rng_slice, clauses)
                 want_n = [[norm(v) for v in row] for row in want]
                 # Gallina model for integer tables (numbers only)
